@@ -17,6 +17,8 @@ type serverHello struct {
 	ALPN          string
 	HasALPN       bool
 	HRR           bool
+	Group         uint16 // key_share: group of the server share (ServerHello) / selected_group (HelloRetryRequest)
+	HasShare      bool
 }
 
 // RFC 8446 §4.1.3: SHA-256("HelloRetryRequest").
@@ -87,6 +89,11 @@ func parseServerHelloBody(body []byte) (*serverHello, bool) {
 		case 43: // supported_versions
 			if len(data) == 2 {
 				sh.Version = uint16(data[0])<<8 | uint16(data[1])
+			}
+		case 51: // key_share: KeyShareEntry (ServerHello) or NamedGroup (HelloRetryRequest)
+			if len(data) >= 2 {
+				sh.Group = uint16(data[0])<<8 | uint16(data[1])
+				sh.HasShare = true
 			}
 		case 16: // ALPN: ProtocolNameList with exactly one name
 			d := &rd{b: data, ok: true}
@@ -234,4 +241,166 @@ func clientLaterRecords(n *tlsx.Net) (types []byte, alertDesc int) {
 		}
 	}
 	return
+}
+
+// ---------------------------------------------------------------------------
+// Further transcript facts (certificate presented, key exchange group,
+// signature scheme, the client's offer as it went over the wire).
+
+// clientHello is what one ClientHello message offered.
+type clientHello struct {
+	Suites    []uint16
+	Groups    []uint16 // supported_groups (extension 10)
+	SigAlgs   []uint16 // signature_algorithms (extension 13)
+	ShareGrps []uint16 // groups of the key_share entries (extension 51)
+}
+
+func parseClientHelloBody(body []byte) (*clientHello, bool) {
+	r := &rd{b: body, ok: true}
+	ch := &clientHello{}
+	r.u16()
+	r.take(32)
+	r.take(r.u8())
+	cs := &rd{b: r.take(r.u16()), ok: r.ok}
+	for cs.ok && len(cs.b) >= 2 {
+		ch.Suites = append(ch.Suites, uint16(cs.u16()))
+	}
+	r.take(r.u8())
+	if !r.ok {
+		return nil, false
+	}
+	if len(r.b) == 0 {
+		return ch, true
+	}
+	ext := &rd{b: r.take(r.u16()), ok: r.ok}
+	for ext.ok && len(ext.b) > 0 {
+		typ := ext.u16()
+		data := ext.take(ext.u16())
+		if !ext.ok {
+			return nil, false
+		}
+		d := &rd{b: data, ok: true}
+		switch typ {
+		case 10, 13:
+			l := &rd{b: d.take(d.u16()), ok: d.ok}
+			for l.ok && len(l.b) >= 2 {
+				v := uint16(l.u16())
+				if typ == 10 {
+					ch.Groups = append(ch.Groups, v)
+				} else {
+					ch.SigAlgs = append(ch.SigAlgs, v)
+				}
+			}
+		case 51:
+			l := &rd{b: d.take(d.u16()), ok: d.ok}
+			for l.ok && len(l.b) >= 4 {
+				g := uint16(l.u16())
+				l.take(l.u16())
+				if l.ok {
+					ch.ShareGrps = append(ch.ShareGrps, g)
+				}
+			}
+		}
+	}
+	return ch, true
+}
+
+// handshakeMessages splits the plaintext handshake records at the start of a
+// stream into messages. It stops at the first record that is not a plaintext
+// handshake record; a ChangeCipherSpec is skipped when skipCCS says so (the
+// TLS 1.3 middlebox-compatibility CCS) and ends the plaintext phase otherwise.
+type hsMsg struct {
+	Type byte
+	Body []byte
+}
+
+func handshakeMessages(stream []byte, skipCCS func(sofar []hsMsg) bool) []hsMsg {
+	var out []hsMsg
+	var buf []byte
+	for _, rec := range tlsx.ParseRecords(stream) {
+		if rec.Type == 20 {
+			if skipCCS != nil && skipCCS(out) {
+				continue
+			}
+			break
+		}
+		if rec.Type != 22 {
+			break
+		}
+		buf = append(buf, rec.Payload...)
+		for len(buf) >= 4 {
+			n := int(buf[1])<<16 | int(buf[2])<<8 | int(buf[3])
+			if len(buf) < 4+n {
+				break
+			}
+			out = append(out, hsMsg{buf[0], append([]byte(nil), buf[4:4+n]...)})
+			buf = buf[4+n:]
+		}
+	}
+	return out
+}
+
+// clientHellos: every plaintext ClientHello of the client->server stream (two
+// after a HelloRetryRequest).
+func clientHellos(stream []byte) []*clientHello {
+	var out []*clientHello
+	msgs := handshakeMessages(stream, func(sofar []hsMsg) bool {
+		// a TLS 1.3 client sends its compatibility CCS between the two ClientHellos
+		return len(sofar) == 1 && sofar[0].Type == 1
+	})
+	for _, m := range msgs {
+		if m.Type != 1 {
+			break
+		}
+		if ch, ok := parseClientHelloBody(m.Body); ok {
+			out = append(out, ch)
+		}
+	}
+	return out
+}
+
+// serverFlight holds what the plaintext part of the server's first flight shows
+// beyond the ServerHello (TLS <= 1.2 only: TLS 1.3 encrypts it).
+type serverFlight struct {
+	Leaf      []byte // DER of the first certificate of the Certificate message
+	HasCert   bool
+	HasSKX    bool
+	SKX       []byte
+	CurveType int
+	Curve     uint16 // named_curve of an ECDHE ServerKeyExchange
+	SigAlg    uint16 // SignatureAndHashAlgorithm (TLS 1.2), 0 below
+	ECDHEOK   bool   // SKX parsed as ECDHE parameters
+}
+
+// parseServerFlight parses Certificate and ServerKeyExchange; ecdhe says how to
+// read the ServerKeyExchange (the message format depends on the suite), v12
+// whether a SignatureAndHashAlgorithm follows the parameters.
+func parseServerFlight(stream []byte, ecdhe, v12 bool) *serverFlight {
+	f := &serverFlight{}
+	for _, m := range handshakeMessages(stream, nil) {
+		switch m.Type {
+		case 11:
+			r := &rd{b: m.Body, ok: true}
+			l := &rd{b: r.take(r.u24()), ok: r.ok}
+			der := l.take(l.u24())
+			if l.ok && !f.HasCert {
+				f.Leaf, f.HasCert = append([]byte(nil), der...), true
+			}
+		case 12:
+			f.HasSKX, f.SKX = true, m.Body
+			if !ecdhe {
+				continue
+			}
+			r := &rd{b: m.Body, ok: true}
+			f.CurveType = r.u8()
+			f.Curve = uint16(r.u16())
+			r.take(r.u8())
+			if v12 {
+				f.SigAlg = uint16(r.u16())
+			}
+			r.take(r.u16()) // signature
+			f.ECDHEOK = r.ok && len(r.b) == 0
+		}
+	}
+	return f
 }
